@@ -1,6 +1,6 @@
 """Helpers shared by several property modules."""
 import re
-from ..analysis import (backslice, classify_result, switch_on_result_of, return_variants_from,
+from ..analysis import (result_tests, reachable_state, backslice, classify_result, switch_on_result_of, return_variants_from,
                         arm_reaches_call, LOG_CALL, is_result_ty, result_err_ty, forward_locals, PASS_METHODS)
 from ..facts import op_local, op_place
 
@@ -246,9 +246,9 @@ MANDATORY = {
     'C09': [
         ('group::scan_files', r"walk::Walk::<'a>::run$", 0, 'the directory walk', (), ()),
         ('group::scan_files::{closure#1}', r'::filter$', 0, 'the size filter', (), ()),
-        ("walk::Walk::<'a>::visit_entry", r"Walk::<'a>::visit_file$", 0, 'visiting a file entry', ('hidden', 'follow_links', 'no_ignore', 'tpe'), (r'::starts_with$', r'DashSet.*::insert$', r'IgnoreStack::matches$', r'file_name_cstr$')),
-        ("walk::Walk::<'a>::visit_entry", r"Walk::<'a>::visit_dir$", 0, 'visiting a directory entry', ('hidden', 'follow_links', 'no_ignore', 'tpe'), (r'::starts_with$', r'DashSet.*::insert$', r'IgnoreStack::matches$', r'file_name_cstr$')),
-        ("walk::Walk::<'a>::visit_entry", r"Walk::<'a>::visit_link$", 0, 'visiting a link entry', ('hidden', 'follow_links', 'no_ignore', 'tpe'), (r'::starts_with$', r'DashSet.*::insert$', r'IgnoreStack::matches$', r'file_name_cstr$')),
+        ("walk::Walk::<'a>::visit_entry", r"Walk::<'a>::visit_file$", 0, 'visiting a file entry', ('hidden', 'follow_links', 'no_ignore', 'tpe'), (r'::starts_with$', r'DashSet.*::insert$', r'Walk::<.a>::mark_visited$', r'IgnoreStack::matches$', r'file_name_cstr$')),
+        ("walk::Walk::<'a>::visit_entry", r"Walk::<'a>::visit_dir$", 0, 'visiting a directory entry', ('hidden', 'follow_links', 'no_ignore', 'tpe'), (r'::starts_with$', r'DashSet.*::insert$', r'Walk::<.a>::mark_visited$', r'IgnoreStack::matches$', r'file_name_cstr$')),
+        ("walk::Walk::<'a>::visit_entry", r"Walk::<'a>::visit_link$", 0, 'visiting a link entry', ('hidden', 'follow_links', 'no_ignore', 'tpe'), (r'::starts_with$', r'DashSet.*::insert$', r'Walk::<.a>::mark_visited$', r'IgnoreStack::matches$', r'file_name_cstr$')),
         ("walk::Walk::<'a>::visit_file", r'Fn.*::call$|FnOnce::call_once$|FnMut::call_mut$', 0, 'reporting a file', (), (r'PathSelector::matches_full_path$',)),
     ],
     'C12': [
@@ -325,3 +325,117 @@ def run_mandatory(ctx, prop):
 
 
 MANDATORY_TEXT = 'mandatory steps: each listed step lies on every successful path of its function; the complete set of conditions under which it may be skipped is pinned (option flags named in the table, `?`/error returns, iterator exhaustion) - any additional skipping condition is a violation'
+
+
+RAW_HASH_WRITE = r'Hasher>::write$|Hasher::write$|Hash>::hash_slice$|Digest>::update$|Update>::update$'
+HASH_DELIM = r'Hasher>::write_(u8|u16|u32|u64|usize|length_prefix|str)$|Hasher::write_(u8|u16|u32|u64|usize|length_prefix|str)$|to_bytes_with_nul$|as_bytes_with_nul$'
+
+
+def delimited_identity_hash(ctx, rule, fn, _seen=None):
+    """An identity hash over a sequence of variable-length parts must delimit the parts: either it delegates to a
+    std/derived Hash impl (length-prefixed slices, discriminants) or every body that feeds raw bytes to the hasher also
+    feeds a delimiter.  Otherwise distinct sequences with the same concatenation collide (a/bc vs ab/c)."""
+    lib = ctx.lib
+    b = ctx.need_body(rule, fn)
+    if b is None:
+        return
+    seen = _seen if _seen is not None else set()
+    if b.path in seen:
+        return
+    seen.add(b.path)
+    bodies = [b] + [lib.body(c) for c in lib.closures_of(b.path)]
+    deleg = [c for x in bodies for c in x.calls(r'^<.* as std::hash::Hash>::hash$|impl std::hash::Hash for .*>::hash$')]
+    raw = [(x, c) for x in bodies for c in x.calls(RAW_HASH_WRITE)]
+    bad = [(x, c) for x, c in raw if not x.calls(HASH_DELIM)]
+    ctx.check(bool(deleg or raw) and not bad, rule, b.path + '|parts-delimited', (bad[0][1].where() if bad else b.where()),
+              '%s feeds its hasher through %d Hash impl call(s) and %d raw write(s), every raw write next to a delimiter' % (b.path, len(deleg), len(raw)),
+              '%s writes variable-length parts to the hasher (%s) without a length prefix or terminator: sequences with the same concatenation (a/bc and ab/c) get the same key, '
+              'and the key is used as the identity of a path' % (b.path, bad[0][1].path.rsplit('::', 1)[-1] if bad else 'nothing'))
+    for c in deleg:
+        tgt = c.f.get('canon') or c.path
+        tb = lib.body(c.path) or lib.body(tgt)
+        if tb is not None and not tb.derived:
+            delimited_identity_hash(ctx, rule, tb.path, seen)
+
+
+FLUSH_CALL = r'Write>::flush$|Write::flush$|csv::Writer(::)?<.*>::flush$|BufWriter(::)?<.*>::(flush|into_inner)$|File::sync_all$|File::sync_data$'
+
+
+def flush_points(body, _depth=0):
+    """(tests, via, notes): the Result tests of the body, the blocks at which a flush has been called with its result
+    propagated (here or in a local `&mut self` callee that flushes on success), and notes on flushes that do not count"""
+    unit = body.unit
+    tests = {}
+    for c in body.calls():
+        if is_result_ty(c.dty):
+            tests.update(result_tests(body, c))
+    via = set()
+    notes = []
+    for c in body.calls():
+        if c.matches(FLUSH_CALL):
+            cat, det = err_handling(body, c)
+            if cat in ('PROPAGATED', 'RETURNED', 'ERR-RETURNED'):
+                via.add(c.bb)
+            else:
+                notes.append('%s at %s is %s' % (c.path.rsplit('::', 1)[-1], c.where(), cat))
+        elif c.f.get('local') and is_result_ty(c.dty) and _depth < 3 and c.args and 'mut' in (body.local_ty(op_local(c.args[0])) if op_local(c.args[0]) is not None else ''):
+            cb = unit.body(c.path)
+            if cb is not None:
+                ok, w = flushed_on_success(cb, _depth + 1)
+                cat, det = err_handling(body, c)
+                if ok and cat in ('PROPAGATED', 'RETURNED', 'ERR-RETURNED'):
+                    via.add(c.bb)
+                elif not ok:
+                    notes.append('%s (%s)' % (c.path.rsplit('::', 1)[-1], w))
+    return tests, via, notes
+
+
+def flushed_on_success(body, _depth=0):
+    """(ok, witness): on every path through `body` on which all fallible calls succeed, a flush of the writer is
+    called and its result propagated/returned - either here or in the local callee whose result is returned."""
+    tests, via, unflushed = flush_points(body, _depth)
+    r = reachable_state(body, 0, tests, 'ok', avoid=via)
+    rets = sorted(set(body.return_blocks()) & r)
+    if not rets:
+        return True, 'flush on every success path (%d flush point(s))' % len(via)
+    return False, 'a success path reaches the return at line %s without a checked flush%s' % (body.blocks[rets[0]]['term']['line'], ('; on the way: ' + '; '.join(sorted(set(unflushed))[:4])) if unflushed else '')
+
+
+BUFFERED_TY = r'(^|[<( ,])std::io::(BufWriter|LineWriter)<'
+
+
+def buffered_drops(body):
+    """[(bb, local, ty, flushed, witness)] for every drop (on a non-unwind path) of a value that contains a std buffered
+    writer: flushed = on the all-calls-succeed paths a checked flush is passed before the drop"""
+    drops = [(bi, blk['term']) for bi, blk in enumerate(body.blocks) if not blk['cleanup'] and blk['term']['k'] == 'drop' and re.search(BUFFERED_TY, blk['term'].get('ty') or '')
+             and not (blk['term'].get('ty') or '').startswith('&')]
+    if not drops:
+        return []
+    tests, via, notes = flush_points(body)
+    r = reachable_state(body, 0, tests, 'ok', avoid=via)
+    r_all = reachable_state(body, 0, tests, 'ok')
+    out = []
+    for bi, t in drops:
+        if bi not in r_all:
+            continue        # only reached after a failed call: that error is already being reported
+        out.append((bi, t['p'][0], t['ty'], bi not in r, '; '.join(sorted(set(notes))[:3])))
+    return out
+
+
+def buffered_drop_discipline(ctx, rule, bodies, armed=True):
+    """every buffered writer that is dropped on a success path was flushed with the result checked"""
+    n = 0
+    for b in bodies:
+        for bi, l, ty, flushed, w in buffered_drops(b):
+            n += 1
+            key = '%s|buffered-drop|%s' % (b.path, b.local_name(l) or ty.split('<')[0].rsplit('::', 1)[-1])
+            where = b.where(b.blocks[bi]['term']['line'])
+            msg = ('%s (a %s) is dropped on a path where every call succeeded without a checked flush%s: the error of the last buffered write is discarded by the drop and the '
+                   'operation reports success on truncated output' % (b.local_name(l) or '_%d' % l, ty.split('<')[0], (' (' + w + ')') if w else ''))
+            if flushed:
+                ctx.ok(rule, key, where, '%s flushed (result checked) before it is dropped on success paths' % (b.local_name(l) or ty.split('<')[0]))
+            elif armed:
+                ctx.violation(rule, key, where, msg)
+            else:
+                ctx.note(rule, where, 'sweep: ' + msg)
+    return n
